@@ -5,7 +5,7 @@
      and litmus lemmas);
   2. translator: barrier functions of the current tree classified from `gcc -S`, barrier positions
      from the fence EVENTs of the lock-step runs -> build/C02/gen/Fences.v, `fence_table_ok` by
-     vm_compute (theorem C02_fences_current);
+     vm_compute (generated theorems C02_tso_current, C02_tso_sound_current);
   3. lock-step co-simulation of harness/c02_wsq_unit.c (the real myth_wsqueue_func.h under a
      token-passing controller, capacities 4/8/16) against the extracted model, snapshot after
      every step;
@@ -17,7 +17,8 @@
 import json, os, re, threading, time
 import vlib
 
-VF = ["Wsq/WsqModel.v", "Wsq/WsqLists.v", "Wsq/WsqInv.v", "Wsq/WsqProofs.v", "Wsq/WsqRefine.v", "Wsq/TsoModel.v", "Wsq/TsoProofs.v", "Wsq/TsoLock.v"]
+VF = ["Wsq/WsqModel.v", "Wsq/WsqLists.v", "Wsq/WsqInv.v", "Wsq/WsqProofs.v", "Wsq/WsqRefine.v", "Wsq/TsoModel.v", "Wsq/TsoProofs.v", "Wsq/TsoLock.v",
+      "Wsq/TsoInv.v", "Wsq/TsoOwner.v", "Wsq/TsoThief.v", "Wsq/TsoSound.v"]
 SIZES = (4, 8, 16)
 POINT_IDS = ["wsq.push.readtop", "wsq.push.recentre", "wsq.push.slot", "wsq.push.top",
              "wsq.pop.quick", "wsq.pop.readtop", "wsq.pop.writetop", "wsq.pop.readbase", "wsq.pop.fastslot",
@@ -50,10 +51,11 @@ def build(ctx, need_lib=True):
                                   libs=["-lpthread"])
     if need_lib:
         lsrc = os.path.join(vlib.VERIF, "harness", "c02_lib.c")
-        lib16 = vlib.build_lib(extra=["-DMYTH_VERIF_QUEUE_SIZE=16"])
-        b["lib16"] = vlib.cc(os.path.join(ctx.dir, "c02_lib_q16"), [lsrc],
-                             flags=vlib.lib_cflags() + ["-O0", "-g", "-DMYTH_VERIF_QUEUE_SIZE=16"],
-                             libs=[lib16, "-lpthread", "-ldl", "-lrt"])
+        for n in (8, 16):
+            libn = vlib.build_lib(extra=["-DMYTH_VERIF_QUEUE_SIZE=%d" % n])
+            b["lib%d" % n] = vlib.cc(os.path.join(ctx.dir, "c02_lib_q%d" % n), [lsrc],
+                                     flags=vlib.lib_cflags() + ["-O0", "-g", "-DMYTH_VERIF_QUEUE_SIZE=%d" % n],
+                                     libs=[libn, "-lpthread", "-ldl", "-lrt"])
         lib = vlib.build_lib()
         b["lib"] = vlib.cc(os.path.join(ctx.dir, "c02_lib"), [lsrc], flags=vlib.lib_cflags() + ["-O0", "-g"],
                            libs=[lib, "-lpthread", "-ldl", "-lrt"])
@@ -145,19 +147,24 @@ def fence_table(static, observed):
 
 def check_fences(ctx, tbl, b):
     """writes build/C02/gen/Fences.v with the regenerated table and compiles it:
-    C02_fences_current : fence_table_ok table = true  (vm_compute)."""
+    C02_tso_current : fence_table_ok table = true (vm_compute) and its consequence C02_tso_sound_current."""
     gen = os.path.join(ctx.dir, "gen")
     names = {"F": "Full", "C": "CompilerOnly", "N": "Nothing"}
     v = ("(* generated by tools/props/c02.py from the current tree - do not edit *)\n"
-         "From MT Require Import Wsq.TsoModel.\n"
+         "From MT Require Import Lib.Interleave Wsq.WsqModel Wsq.WsqProofs Wsq.TsoModel Wsq.TsoLock Wsq.TsoSound.\n"
          "Definition table : fence_table := mkFT %s.\n"
-         "Theorem C02_fences_current : fence_table_ok table = true.\n"
+         "(* the fence placement the compiler emits today is one accepted by the checker ... *)\n"
+         "Theorem C02_tso_current : fence_table_ok table = true.\n"
          "Proof. vm_compute. reflexivity. Qed.\n"
-         "Print Assumptions C02_fences_current.\n") % " ".join(names[c] for c in tbl)
+         "Print Assumptions C02_tso_current.\n"
+         "(* ... hence the deque invariant holds in every TSO-reachable state of the current tree *)\n"
+         "Theorem C02_tso_sound_current : forall s, reachable tso_initial (tso_step table) s -> StateInv (logical s).\n"
+         "Proof. intros s H. exact (tso_sound table s C02_tso_current H). Qed.\n"
+         "Print Assumptions C02_tso_sound_current.\n") % " ".join(names[c] for c in tbl)
     open(os.path.join(gen, "Fences.v"), "w").write(v)
     rc, out = vlib.sh(["coqc", "-Q", vlib.COQ, "MT", "-Q", gen, "C02Gen", os.path.join(gen, "Fences.v")],
                       cwd=gen, timeout=300)
-    ok = rc == 0 and "Closed under the global context" in out
+    ok = rc == 0 and out.count("Closed under the global context") == 2
     return ok, out[-1500:]
 
 
@@ -428,6 +435,11 @@ def oracle(case, steps_txt):
                 elif op[0] in "OT":
                     if v != 0:
                         handed.append(v)
+                elif op[0] == "W":
+                    if v != 0 and op == "W0":
+                        return "declined steal handed out item %d" % v
+                    if v != 0:
+                        handed.append(v)
             prev[p] = lab
         for q in range(nth + 1):
             prev[q] = s["labels"][q]
@@ -594,6 +606,87 @@ def run_seq(ctx, b, lines):
     return diffs, fails, nops
 
 
+CONC_SIZES = (8, 16)
+
+
+def gen_conc(ctx, quick):
+    """library-level lock-step cases on worker 0's run queue: owner push/pop/put, thieves with the wsapi
+    take (declining / accepting callback = a scheduling point), pass, peek, plain take"""
+    r = ctx.rng
+    cases = []
+    for size in CONC_SIZES:
+        for L in (1, 2, 3):
+            pushes = ["P%d" % (i + 1) for i in range(L)]
+            # thief 1 sits in its decision callback while thief 2 and the owner operate
+            for t1 in (["W0"], ["W1"], ["W0", "W1"]):
+                for t2 in (["T"], ["W1"], ["W0"], ["S9"], ["Q", "T"]):
+                    for tail in (["O", "O"], ["U8", "O", "O"], ["P7", "O"]):
+                        pre = r.rng(0, 3)
+                        sch = ["u0.%d" % L] + [1] * pre + [2] * r.rng(0, 9) + [0] * r.rng(0, 9) + [1] * r.rng(0, 3) + [2] * r.rng(0, 6)
+                        if quick and r.chance(1, 2):
+                            continue
+                        cases.append(("conc decide L%d" % L, mk(size, pushes + tail, [t1, t2], sch)))
+        # both re-centrings with thieves around
+        n = size // 2 + 2
+        for k in range(3 if quick else 12):
+            own = ["P%d" % (i + 1) for i in range(n)] + ["O"] * 2
+            sch = []
+            for i in range(n):
+                sch += ["u0.%d" % (i + 1)] + [r.rng(1, 2) for _ in range(r.rng(0, 6))]
+            cases.append(("conc recentre-down", mk(size, own, [["W1", "W0", "W1"], ["W0", "T", "Q"]], sch)))
+            own = ["U%d" % (i + 1) for i in range(n)] + ["O"] * 2
+            cases.append(("conc recentre-up", mk(size, own, [["W0", "S40", "W1"], ["W1", "W0", "S41"]], sch)))
+        for k in range(60 if quick else 600):
+            nth = r.rng(1, 3)
+            t = Tags()
+            oo = []
+            for i in range(r.rng(0, 8)):
+                x = r.below(100)
+                oo.append("P%d" % t.new() if x < 50 else "O" if x < 80 else "U%d" % t.new())
+            oo = oo[:size // 2]
+            tt = []
+            for j in range(nth):
+                l = []
+                for i in range(r.rng(0, 4)):
+                    x = r.below(100)
+                    l.append("W0" if x < 30 else "W1" if x < 55 else "T" if x < 70 else "Q" if x < 80 else "K" if x < 85 else "S%d" % (50 + t.new()))
+                tt.append(l)
+            # keep the number of insertions below the capacity (no overflow in this harness)
+            ins = sum(1 for o in oo if o[0] in "PU") + sum(1 for l in tt for o in l if o[0] == "S")
+            if ins >= size // 2:
+                continue
+            w = [r.rng(1, 10) for _ in range(nth + 1)]
+            tot = sum(w)
+            sch = []
+            for i in range(r.rng(0, 120)):
+                x, p = r.below(tot), 0
+                while x >= w[p]:
+                    x -= w[p]
+                    p += 1
+                sch.append(p)
+            cases.append(("conc random", mk(size, oo, tt, sch)))
+    return cases
+
+
+def run_conc(ctx, b, cases):
+    """-> impl lines, model lines"""
+    impl = [None] * len(cases)
+    for n in CONC_SIZES:
+        idx = [i for i, (k, c) in enumerate(cases) if int(c.split()[0]) == n]
+        if not idx:
+            continue
+        rc, out = vlib.sh([b["lib%d" % n], "conc"], input="\n".join(cases[i][1] for i in idx) + "\n", timeout=300,
+                          env=dict(os.environ, MYTH_NUM_WORKERS="1"))
+        lines = [l for l in out.split("\n")]
+        if lines and lines[-1] == "":
+            lines.pop()
+        for j, i in enumerate(idx):
+            impl[i] = lines[j] if j < len(lines) else "<no output> (exit %d)" % rc
+    model, _, _ = vlib.run_lines([b["drv"]], [c for k, c in cases], timeout=300)
+    model = [model[i] if i < len(model) else "<no output>" for i in range(len(cases))]
+    return impl, model
+
+
 def run_smoke(ctx, b):
     res, fails = [], []
     for w in (1, 2, 3, 4):
@@ -696,11 +789,15 @@ def run(ctx):
     obs, points = fence_observations(cases, impl)
     tbl, tdetail = fence_table(static, obs)
     fences_ok, fences_log = check_fences(ctx, tbl, b)
-    ctx.cov["obligations"] += 1
+    ctx.cov["obligations"] += 2
     if fences_ok:
-        ctx.cov["discharged"] += 1
-    ctx.cov["theorems"]["C02_fences_current"] = {
+        ctx.cov["discharged"] += 2
+    ctx.cov["theorems"]["C02_tso_current"] = {
         "statement": "fence_table_ok table = true   (table regenerated from the current tree: %s)" % tbl,
+        "status": "checked" if fences_ok else "FAILED",
+        "assumptions": "Closed under the global context" if fences_ok else None}
+    ctx.cov["theorems"]["C02_tso_sound_current"] = {
+        "statement": "forall s, reachable tso_initial (tso_step table) s -> StateInv (logical s)   (instance of C02_tso_sound at the regenerated table)",
         "status": "checked" if fences_ok else "FAILED",
         "assumptions": "Closed under the global context" if fences_ok else None}
     missed = [p for p in POINT_IDS if p not in points]
@@ -708,6 +805,9 @@ def run(ctx):
                             if isinstance(d, dict) and "expected" in d and d["fence_events_seen"] != [d["expected"]]}
 
     # ---- library level ----
+    ccases = gen_conc(ctx, quick)
+    cimpl, cmodel = run_conc(ctx, b, ccases)
+    cdiffs, cfails, ckinds, coutcomes = judge_unit(ctx, ccases, cimpl, cmodel)
     seq_lines = gen_seq_lines(ctx, 60 if quick else 600)
     sdiffs, sfails, sops = run_seq(ctx, b, seq_lines)
     smoke, smoke_fails = run_smoke(ctx, b)
@@ -721,6 +821,9 @@ def run(ctx):
         "input_distribution": kinds, "impl_result_distribution": outcomes,
         "point_ids_hit": {p: points.get(p, 0) for p in POINT_IDS}, "point_ids_missed": missed,
         "exhaustive_schedule_counts": enum_stats,
+        "library_lockstep_wsapi": {"cases": len(ccases), "steps_compared": sum(len((x or "").split("|")) for x in cimpl),
+                                   "disagreements": len(cdiffs), "oracle_failures": len(cfails),
+                                   "input_distribution": ckinds, "result_distribution": coutcomes},
         "library_sequential": {"lines": len(seq_lines), "operations": sops, "disagreements": len(sdiffs),
                                "oracle_failures": len(sfails)},
         "library_smoke": smoke,
@@ -747,13 +850,19 @@ def run(ctx):
         ctx.violation("oracle", msg, {"case": c, "kind": kind, "observed": steps[-1500:], "level": "unit (real myth_wsqueue_func.h)",
                                       "expected": "every inserted tag handed out exactly once or still queued",
                                       "all_failing": [(f[0], f[2]) for f in fails[:20]]}, found=True)
+    if cfails:
+        c, steps, msg, kind = cfails[0]
+        ctx.violation("oracle-library", msg, {"conc_case": c, "kind": kind, "observed": steps[-1500:],
+                                              "level": "library (wsapi functions of the real library, lock-step)",
+                                              "expected": "every inserted tag handed out exactly once or still queued",
+                                              "all_failing": [(f[0], f[2]) for f in cfails[:20]]}, found=True)
     if sfails:
         ops, canon, msg = sfails[0]
         ctx.violation("oracle-library", msg, {"seq_case": ops, "observed": canon[-1500:], "level": "library (wsapi)"}, found=True)
     if smoke_fails:
         ctx.violation("smoke", smoke_fails[0], {"smoke": smoke, "level": "library"}, found=True)
-    anyfound = bool(fails or sfails or smoke_fails)
-    need_search = (diffs or sdiffs or broken or missed) and not anyfound
+    anyfound = bool(fails or sfails or smoke_fails or cfails)
+    need_search = (diffs or sdiffs or cdiffs or broken or missed) and not anyfound
     searched = None
     if need_search:
         hit, tried = search_failing(ctx, b)
@@ -770,6 +879,26 @@ def run(ctx):
             {"theorem_or_correspondence": "lock-step correspondence Wsq/WsqModel.v <-> src/myth_wsqueue_func.h",
              "case": d["case"], "observed": d["impl"], "expected": d["model"], "state_before": d["before"],
              "all": diffs[:20], "searched_cases": searched}, found=False)
+    if cdiffs and not anyfound:
+        # impl-side search at library level: more wsapi lock-step cases with the oracle
+        extra = []
+        for k in range(6):
+            extra += gen_conc(ctx, False)
+        ximpl, xmodel = run_conc(ctx, b, extra)
+        xd, xf, _, _ = judge_unit(ctx, extra, ximpl, xmodel)
+        if xf:
+            c, steps, msg, kind = xf[0]
+            ctx.violation("oracle-library", msg, {"conc_case": c, "kind": kind, "observed": steps[-1500:],
+                                                  "level": "library (wsapi functions of the real library, lock-step)",
+                                                  "found_by": "search after a broken correspondence (%d cases)" % len(extra)}, found=True)
+            anyfound = True
+        else:
+            d = cdiffs[0]
+            ctx.violation("correspondence-library", "model and library (wsapi, lock-step) disagree on %d case(s); first at step %d of: %s" % (
+                len(cdiffs), d["first_differing_step"], d["case"]),
+                {"theorem_or_correspondence": "lock-step correspondence Wsq/WsqModel.v <-> src/myth_if_native.c (wsapi) + src/myth_wsqueue_func.h",
+                 "conc_case": d["case"], "observed": d["impl"], "expected": d["model"], "state_before": d["before"],
+                 "all": cdiffs[:20], "searched_cases": len(extra)}, found=False)
     if sdiffs and not anyfound:
         d = sdiffs[0]
         ctx.violation("correspondence-library", "model and library (wsapi) disagree on %d line(s)" % len(sdiffs),
@@ -788,10 +917,10 @@ def run(ctx):
                 tbl, PINNED, tso_hit["result"][:300]),
                 {"level": "model-tso", "tso_case": tso_hit["config"], "table": tbl, "observed": tso_hit["result"],
                  "note": "schedule of the extracted x86-TSO model (store buffers); not reproducible deterministically on hardware",
-                 "theorem_or_correspondence": "C02_fences_current", "positions": tdetail}, found=True)
+                 "theorem_or_correspondence": "C02_tso_current", "positions": tdetail}, found=True)
         else:
             ctx.violation("fences", "fence table of the current tree (%s, pinned %s) fails fence_table_ok" % (tbl, PINNED),
-                          {"theorem_or_correspondence": "C02_fences_current", "table": tbl, "positions": tdetail,
+                          {"theorem_or_correspondence": "C02_tso_current", "table": tbl, "positions": tdetail,
                            "log": fences_log, "tso_exploration": tso_res}, found=False)
     elif tso_hit:
         ctx.violation("tso-exploration", "the TSO model with the current fence table violates conservation although fence_table_ok accepts it: " + tso_hit["result"][:300],
@@ -825,6 +954,18 @@ def replay(ctx, path):
                 print("%3d model %s   <-- differs" % (k, m))
         print("fences:", ev)
         print("oracle:", oracle(c, steps))
+    if "conc_case" in body:
+        c = body["conc_case"]
+        impl, model = run_conc(ctx, b, [("replay", c)])
+        print("conc case:", c)
+        x, y = (impl[0] or "").split("|"), (model[0] or "").split("|")
+        for k in range(max(len(x), len(y))):
+            a = x[k] if k < len(x) else "<end>"
+            m = y[k] if k < len(y) else "<end>"
+            print("%3d impl  %s" % (k, a))
+            if a != m:
+                print("%3d model %s   <-- differs" % (k, m))
+        print("oracle:", oracle(c, impl[0] or ""))
     if "seq_case" in body:
         ops = body["seq_case"]
         if ops.startswith("seq "):
